@@ -74,9 +74,16 @@ func (d *Dims) RandomFile(rng *rand.Rand, n int, noPointerInput bool) []Reg {
 			// a bound body together with other inputs is the recorded finding of C14: kept rare
 			r.Query, r.Form = []string{}, Form{Values: []string{}}
 		}
+		if r.Handler == "localtwin" {
+			for _, prev := range regs {
+				if prev.Handler == "localtwin" || (noPointerInput && prev.Handler == "importedfunc" && prev.Verb != "Static") {
+					r.Handler = "func" // one declaration of TopLevel per file (and, for clients, one method per name)
+				}
+			}
+		}
 		if noPointerInput { // client universe: every handler name once (a method per endpoint, named after its handler)
 			for _, prev := range regs {
-				if prev.Handler == r.Handler && (r.Handler == "importedfunc" || r.Handler == "importedmethod") && prev.Verb != "Static" {
+				if (prev.Handler == r.Handler || (prev.Handler == "localtwin" && r.Handler == "importedfunc")) && (r.Handler == "importedfunc" || r.Handler == "importedmethod") && prev.Verb != "Static" {
 					r.Handler = "method"
 				}
 			}
@@ -258,6 +265,9 @@ func Render(id int, regs []Reg) (files map[string]string, source string) {
 		case "func":
 			fmt.Fprintf(&decls, "func plain%d(c echo.Context) error {\n%s}\n\n", idx, body(r))
 			h = fmt.Sprintf("plain%d", idx)
+		case "localtwin": // a local function with the short name of the imported handler (declared once per file)
+			fmt.Fprintf(&decls, "func TopLevel(c echo.Context) error {\n%s}\n\n", body(r))
+			h = "TopLevel"
 		case "importedfunc":
 			h = "inner.TopLevel"
 		case "importedmethod":
